@@ -10,7 +10,7 @@ from props import whit_common as wc
 PRE = ("From HDC Require Import Base.Prelude Base.Float Base.Ops Model.Ws2d Model.Tinterp Corr.C03 Corr.C20.\nFrom Coq Require Import PrimFloat.\n")
 
 
-def make_case(rng, nobs, spacing, labeling, kind, zero_sum=False):
+def make_case(rng, nobs, spacing, labeling, kind, zero_sum=False, force_wrap=False):
     """observations every `spacing` days (or irregular), daily labels by dekad / pentad / month-like periods"""
     if spacing == 0:
         gaps = rng.integers(3, 20, size=nobs - 1)
@@ -25,7 +25,11 @@ def make_case(rng, nobs, spacing, labeling, kind, zero_sum=False):
     nper = ndays // min(plen) + 3
     wrap = int(rng.integers(nper + 1, 3 * nper + 40))
     start = int(rng.integers(1, wrap + 1))
-    seq = [((start - 1 + j) % wrap) + 1 for j in range(nper)] if rng.random() < 0.6 else [1000 + start + j for j in range(nper)]
+    if force_wrap:                                       # period-of-year labels across New Year: the label drops inside the record
+        used = max(2, ndays // max(plen))
+        wrap = max(wrap, used + 2)
+        start = wrap - int(rng.integers(0, used - 1))
+    seq = [((start - 1 + j) % wrap) + 1 for j in range(nper)] if (force_wrap or rng.random() < 0.6) else [1000 + start + j for j in range(nper)]
     labels, k = [], 0
     while len(labels) < ndays + plen[0]:
         labels += [seq[k]] * plen[k % len(plen)]
@@ -116,6 +120,13 @@ def run(ctx):
             nobs = 4200 // max(spacing, 10)
         c = make_case(rng, nobs, spacing, str(rng.choice(["dekad", "pentad", "month"])), ["constant", "linear", "random", "random"][it % 4], zero_sum=(it % 8) in (1, 2))
         c["accessor"] = (it % 6 == 0)
+        c["tdtype"] = ["float64", "uint8", "bool", "float64"][(it // 2) % 4]
+        cases.append(c)
+    # through the accessor with labels that drop inside the record, on non-constant series
+    for it in range(12 if ctx.thorough else 4):
+        c = make_case(rng, int(rng.integers(6, 40)), int(rng.choice([5, 8, 10, 16])), str(rng.choice(["dekad", "pentad", "month"])), "random", force_wrap=True)
+        c["accessor"] = True
+        c["tdtype"] = "float64"
         cases.append(c)
     res, log = core.run_impl("c20_impl.py", dict(cases=cases), timeout=3000)
     if res is None:
